@@ -1,11 +1,457 @@
 import WV.Model.C12
+import WV.Proofs.C12_Codec
+import WV.Proofs.C12_Framer
+import WV.Proofs.C12_Pump
+import WV.Proofs.C12_Noise
+import WV.Proofs.C12_L2
+import WV.Proofs.C12_Inv
+import WV.Proofs.C12_E2E
+import WV.Proofs.C12_Select
 
-/-! C12 property theorems (statements and proofs only; helper lemmas live in WV/Proofs). -/
+/-!
+C12 property theorems — Dilation L2 framing / encryption / encoding is lossless and rejects
+unkeyed input.  Statements and their assembly only; helper lemmas live in `WV/Proofs/C12_*`.
+
+All theorems are about the definitions the driver executes (`WV.C12.*`, on the *generated*
+`Framer`/`Record`/`DCP` tables and constants), for every message length, record list, chunking
+and history; Noise is an arbitrary `Noise` with the hypothesis `Noise.Ideal` (the toy instance
+used by the driver and the harness satisfies it: `toyNoise_ideal`).
+-/
 namespace WV.Props.C12
-open WV WV.C12
+open WV WV.C12 WV.Gen WV.Proofs.C12
 
+/-! ## encodings -/
+
+/-- `from_be4 (to_be4 n) = n` for every 32-bit `n` -/
 theorem be4_roundtrip (n : Nat) (h : n < 4294967296) :
     (toBe4 n).bind fromBe4 = some n := by
   simp [toBe4, h, fromBe4]; omega
+
+/-- `to_be4` raises exactly outside `0 ≤ n < 2**32` -/
+theorem be4_range (n : Nat) : (toBe4 n).isSome = true ↔ n < 4294967296 := by
+  unfold toBe4; split <;> simp [*]
+
+/-- `parse_record (encode_record r) = r` for all seven record types, all 32-bit ids/seqnums,
+    4-byte ping ids, any payload, any (valid UTF-8) subprotocol name -/
+theorem record_roundtrip (validUtf8 : Bytes → Bool) (r : Rec) (hwf : r.wf validUtf8) :
+    ∃ b, encodeRecord r = some b ∧ parseRecord validUtf8 b = .ok r :=
+  parse_encode validUtf8 r hwf
+
+example : (Rec.opn 4294967295 0 [195, 169]).wf (fun _ => true) := by simp [Rec.wf]
+example : (Rec.ping [1, 2, 3, 4]).wf (fun _ => true) := by simp [Rec.wf]
+
+/-! ## Noise packets -/
+
+/-- `decrypt_message (send_record's frame body for m) = m` for EVERY message length (one Noise
+    packet or many), and both sides advance their nonce identically -/
+theorem multi_packet_roundtrip (N : Noise) (hN : N.Ideal) (n : Nat) (m : Bytes) :
+    openMessage N n (sealMessage N n m).1 = some (m, (sealMessage N n m).2) :=
+  open_seal N hN n m
+
+/-- the arithmetic behind it, for any payload size `P`: re-splitting the concatenated ciphertext
+    at `P + 16` gives back the per-chunk ciphertexts -/
+theorem resplit_roundtrip (N : Noise) (hN : N.Ideal) (P : Nat) (hP : 0 < P) (m : Bytes) (n : Nat) :
+    decChunks N n (chunksOf (P + 16) (encChunks N n (chunksOf P m.length m)).1.length
+        (encChunks N n (chunksOf P m.length m)).1)
+      = some (m, (encChunks N n (chunksOf P m.length m)).2) :=
+  decChunks_resplit N hN P hP m.length m n (Nat.le_refl _) _ (Nat.le_refl _)
+
+/-- the two Noise constants the code uses fit together -/
+theorem noise_constants : Consts.NOISE_MAX_CIPHERTEXT = Consts.NOISE_MAX_PAYLOAD + 16 := by decide
+
+/-- one honest `send_record`: whatever follows it in the buffer, the framer cuts out exactly its
+    frame, which opens under the receiver's nonce and parses back to the record sent -/
+theorem send_record_roundtrip (cfg : L2Cfg) (hN : cfg.noise.Ideal) (n n1 : Nat) (r : Rec) (b rest : Bytes)
+    (hwf : r.wf cfg.validUtf8) (h : sendRecord cfg.noise n r = some (b, n1)) :
+    ∃ body pt, parseFrame (b ++ rest) = some (body, rest) ∧
+      openMessage cfg.noise n body = some (pt, n1) ∧ parseRecord cfg.validUtf8 pt = .ok r := by
+  obtain ⟨msg, he, hf, hn⟩ := sendRecord_some h
+  obtain ⟨msg', he', hp⟩ := parse_encode cfg.validUtf8 r hwf
+  rw [he] at he'; cases he'
+  exact ⟨_, msg, parseFrame_frame hf, by rw [open_seal cfg.noise hN, hn], hp⟩
+
+/-- the toy AEAD of the driver/harness satisfies the ideal-Noise hypotheses (non-vacuity) -/
+theorem toy_noise_ideal : toyNoise.Ideal := toyNoise_ideal
+
+/-! ## the framer loop -/
+
+/-- fuel sufficiency: `buf.length + 3` turns (what `add_and_parse` is modelled with) are enough;
+    any larger fuel gives the same result, i.e. the loop always ends by `break` or an exception -/
+theorem parseLoop_fuel (cfg : FramerCfg) (s : FramerSt) (acc : List Token) (f : Nat)
+    (hf : s.buf.length + 3 ≤ f) :
+    parseLoop cfg f s acc = parseLoop cfg (s.buf.length + 3) s acc := by
+  unfold parseLoop
+  rw [pump_eq_run cfg collect f s acc (by have := mu_le s; omega),
+      pump_eq_run cfg collect _ s acc (mu_le s)]
+
+/-- the same for the loop with any consumer (in particular `dataReceived`'s) -/
+theorem pump_fuel {U : Type} (cfg : FramerCfg) (h : U → Token → Except (Err × U) U) (fr : FramerSt) (u : U) (f : Nat)
+    (hf : fr.buf.length + 3 ≤ f) :
+    pump cfg h f fr u = pump cfg h (fr.buf.length + 3) fr u := by
+  rw [pump_eq_run cfg h f fr u (by have := mu_le fr; omega), pump_eq_run cfg h _ fr u (mu_le fr)]
+
+/-- tokens and outcome of the framer depend only on the concatenation of the chunks: feeding any
+    non-empty chunking gives the same tokens, the same exception (or none), the same framer
+    state, and — unless an exception ended it — the same buffer as feeding all bytes at once -/
+theorem framer_chunking_invariant (cfg : FramerCfg) (s : FramerSt) (cs : List Bytes) (hne : cs ≠ []) :
+    (feedChunks cfg s cs).2 = (addAndParse cfg s cs.flatten).2 ∧
+    (feedChunks cfg s cs).1.st = (addAndParse cfg s cs.flatten).1.st ∧
+    ((feedChunks cfg s cs).2.2 = none → feedChunks cfg s cs = addAndParse cfg s cs.flatten) := by
+  unfold feedChunks addAndParse
+  obtain ⟨rest, hrest⟩ := feed_flatten cfg collect cs s [] (fun h0 => absurd h0 hne)
+  rw [hrest]
+  rcases feed cfg collect s [] cs with ⟨fr, ts, e⟩
+  cases e with
+  | none => simp [padErr]
+  | some e => simp [padErr]
+
+/-- the same for the whole receive path: `dataReceived` chunk by chunk = `dataReceived` once -/
+theorem l2_chunking_invariant (cfg : L2Cfg) (s : L2St) (cs : List Bytes) (hne : cs ≠ []) :
+    (l2Feed cfg s cs).2 = (l2Data cfg s cs.flatten).2 ∧
+    (l2Feed cfg s cs).1.up = (l2Data cfg s cs.flatten).1.up ∧
+    (l2Feed cfg s cs).1.fr.st = (l2Data cfg s cs.flatten).1.fr.st ∧
+    ((l2Feed cfg s cs).2 = none → l2Feed cfg s cs = l2Data cfg s cs.flatten) := by
+  unfold l2Feed l2Data
+  obtain ⟨rest, hrest⟩ := feed_flatten cfg.framer (l2Token cfg) cs s.fr s.up (fun h0 => absurd h0 hne)
+  rw [hrest]
+  rcases feed cfg.framer (l2Token cfg) s.fr s.up cs with ⟨fr, u, e⟩
+  cases e with
+  | none => simp [padErr]
+  | some e => simp [padErr]
+
+/-! ## wrong relay reply / wrong prologue -/
+
+/-- any stream whose start diverges from the relay's expected reply, delivered in any chunking:
+    as soon as the bytes received contain a newline or are as long as the expected reply the
+    framer raises `Disconnect`, and it has yielded no token -/
+theorem relay_reject (cfg : FramerCfg) (cs : List Bytes)
+    (hd : Diverges cs.flatten cfg.relayExpected)
+    (hl : 10 ∈ cs.flatten ∨ cfg.relayExpected.length ≤ cs.flatten.length) :
+    ∃ fr, feedChunks cfg ⟨.want_relay, []⟩ cs = (fr, [], some .disconnect) := by
+  have hne : cs ≠ [] := by
+    intro h0; subst h0; exact hd.2 (List.nil_prefix)
+  obtain ⟨fr1, h1, _⟩ := feed_of_run_error cfg collect ⟨.want_relay, []⟩ _ [] [] .disconnect cs hne
+    (by simpa [addBuf] using run_reject_relay cfg collect [] cs.flatten hd hl)
+  exact ⟨fr1, h1⟩
+
+/-- the same for the prologue, directly or after the relay's `ok` -/
+theorem prologue_reject (cfg : FramerCfg) (relay : Bool) (cs : List Bytes) (rest : Bytes)
+    (hcs : cs.flatten = (if relay then cfg.relayExpected else []) ++ rest)
+    (hd : Diverges rest cfg.inboundPrologue)
+    (hl : 10 ∈ rest ∨ cfg.inboundPrologue.length ≤ rest.length) :
+    ∃ fr, feedChunks cfg ⟨if relay then .want_relay else Framer.init, []⟩ cs = (fr, [], some .disconnect) := by
+  have hne : cs ≠ [] := by
+    intro h0; subst h0
+    have : rest = [] := by
+      have := congrArg List.length hcs; simp at this; exact List.eq_nil_of_length_eq_zero (by omega)
+    subst this; exact hd.2 (List.nil_prefix)
+  cases relay with
+  | false =>
+    simp only [Bool.false_eq_true, if_false, List.nil_append] at hcs ⊢
+    obtain ⟨fr1, h1, _⟩ := feed_of_run_error cfg collect ⟨Framer.init, []⟩ _ [] [] .disconnect cs hne
+      (by rw [hcs]; simpa [addBuf, Framer.init] using run_reject_prologue cfg collect [] rest hd hl)
+    exact ⟨fr1, h1⟩
+  | true =>
+    simp only [if_true] at hcs ⊢
+    obtain ⟨fr1, h1, _⟩ := feed_of_run_error cfg collect ⟨.want_relay, []⟩ _ [] [] .disconnect cs hne
+      (by rw [hcs]; simpa [addBuf] using run_reject_prologue_after_relay cfg collect [] rest hd hl)
+    exact ⟨fr1, h1⟩
+
+/-- on the connection: a diverging start (relay reply or prologue) drops the connection with
+    the state above the framer exactly as it was created — no handshake processed, no candidate,
+    nothing queued, nothing for the manager -/
+theorem l2_start_reject (cfg : L2Cfg) (relay ld : Bool) (cs : List Bytes) (rest : Bytes)
+    (h : (relay = true ∧ cs.flatten = rest ∧ Diverges rest cfg.framer.relayExpected ∧
+            (10 ∈ rest ∨ cfg.framer.relayExpected.length ≤ rest.length)) ∨
+         (cs.flatten = (if relay then cfg.framer.relayExpected else []) ++ rest ∧
+            Diverges rest cfg.framer.inboundPrologue ∧
+            (10 ∈ rest ∨ cfg.framer.inboundPrologue.length ≤ rest.length))) :
+    (l2Feed cfg (l2Init relay ld) cs).2 = some .disconnect ∧
+    (l2Feed cfg (l2Init relay ld) cs).1.up = upInit ld := by
+  have hrest : rest ≠ [] := by
+    intro h0; subst h0
+    rcases h with ⟨_, _, hd, _⟩ | ⟨_, hd, _⟩ <;> exact hd.2 List.nil_prefix
+  have hne : cs ≠ [] := by
+    intro h0; subst h0
+    rcases h with ⟨_, hc, _⟩ | ⟨hc, _⟩
+    · exact hrest hc.symm
+    · have := congrArg List.length hc
+      simp at this
+      exact hrest (List.eq_nil_of_length_eq_zero (by omega))
+  unfold l2Feed
+  have key : ∃ frE, run cfg.framer (l2Token cfg) (addBuf (l2Init relay ld).fr cs.flatten) (upInit ld)
+      = (frE, upInit ld, some .disconnect) := by
+    rcases h with ⟨hr, hc, hd, hl⟩ | ⟨hc, hd, hl⟩
+    · subst hr; rw [hc]
+      exact ⟨_, by simpa [addBuf, l2Init] using run_reject_relay cfg.framer (l2Token cfg) (upInit ld) rest hd hl⟩
+    · rw [hc]
+      cases relay with
+      | false =>
+        exact ⟨_, by simpa [addBuf, l2Init, Framer.init] using
+          run_reject_prologue cfg.framer (l2Token cfg) (upInit ld) rest hd hl⟩
+      | true =>
+        exact ⟨_, by simpa [addBuf, l2Init] using
+          run_reject_prologue_after_relay cfg.framer (l2Token cfg) (upInit ld) rest hd hl⟩
+  obtain ⟨frE, hk⟩ := key
+  obtain ⟨fr1, h1, _⟩ := feed_of_run_error cfg.framer (l2Token cfg) _ _ _ _ _ cs hne hk
+  have : (l2Init relay ld).up = upInit ld := rfl
+  rw [this, h1]
+  exact ⟨rfl, rfl⟩
+
+/-- non-vacuity: the real follower prologue diverges from the leader's, and `"no\n"` from `"ok\n"` -/
+example : Diverges Consts.PROLOGUE_FOLLOWER Consts.PROLOGUE_LEADER := by
+  constructor <;> decide
+example : Diverges [110, 111, 10] relayOkBytes ∧ (10 ∈ [110, 111, 10] ∨ relayOkBytes.length ≤ 3) := by
+  refine ⟨by constructor <;> decide, by decide⟩
+
+/-! ## unkeyed input -/
+
+/-- a frame that is not made of ciphertexts produced with the key for the receiver's current
+    nonce(s) — a forged, corrupted, truncated, replayed or re-ordered frame — raises `Disconnect`
+    and leaves everything above the framer exactly as it was -/
+theorem unkeyed_rejected (cfg : L2Cfg) (hN : cfg.noise.Ideal) (u : UpSt) (f : Bytes)
+    (hr : u.rcd = .want_message) (hk : ¬ KeyedFrame cfg.noise u.rxNonce f) :
+    l2Token cfg u (.frame f) = .error (.disconnect, u) := by
+  cases ho : openMessage cfg.noise u.rxNonce f with
+  | none =>
+    simp only [l2Token, recordGotFrame_message cfg u f hr, ho]
+    obtain ⟨rcd, dcp, rx, hsS, kS, q, tm, cand⟩ := u
+    simp only at hr; subst hr; rfl
+  | some p =>
+    obtain ⟨pt, n'⟩ := p
+    exact absurd (openMessage_keyed cfg.noise hN _ f pt n' ho).1 hk
+
+/-- in particular a single-packet frame that is not the honest ciphertext of anything -/
+theorem forged_packet_rejected (cfg : L2Cfg) (hN : cfg.noise.Ideal) (u : UpSt) (f : Bytes)
+    (hr : u.rcd = .want_message) (hlen : f.length ≤ Consts.NOISE_MAX_CIPHERTEXT)
+    (hk : ∀ m, f ≠ cfg.noise.enc u.rxNonce m) :
+    l2Token cfg u (.frame f) = .error (.disconnect, u) := by
+  have ho : openMessage cfg.noise u.rxNonce f = none := by
+    simp only [openMessage, hlen, if_true]
+    cases hd : cfg.noise.dec u.rxNonce f with
+    | none => rfl
+    | some m => exact absurd (hN.auth _ _ _ hd) (hk m)
+  simp only [l2Token, recordGotFrame_message cfg u f hr, ho]
+  obtain ⟨rcd, dcp, rx, hsS, kS, q, tm, cand⟩ := u
+  simp only at hr; subst hr; rfl
+
+/-- a Noise handshake message that does not verify raises `Disconnect`; nothing but `_Record`'s
+    own state has changed -/
+theorem bad_handshake_rejected (cfg : L2Cfg) (u : UpSt) (f : Bytes)
+    (hr : u.rcd = .want_handshake_leader ∨ u.rcd = .want_handshake_follower)
+    (hbad : cfg.handshakeOK f = false) :
+    l2Token cfg u (.frame f) = .error (.disconnect, { u with rcd := .want_message }) := by
+  rcases hr with hr | hr <;> simp [l2Token, recordGotFrame, hr, Record.table, hbad]
+
+/-- `manager.got_record` is only ever called in DCP state `selected`, with a record (never a
+    KCM) decrypted from a frame under the current nonce -/
+theorem toManager_grows_only_selected (cfg : L2Cfg) (u u' : UpSt) (t : Token)
+    (h : l2Token cfg u t = .ok u') (hch : u'.toManager ≠ u.toManager) :
+    u.dcp = .selected ∧ ∃ f pt r, t = .frame f ∧ r ≠ .kcm ∧
+      openMessage cfg.noise u.rxNonce f = some (pt, u'.rxNonce) ∧
+      parseRecord cfg.validUtf8 pt = .ok r ∧ u'.toManager = u.toManager ++ [r] := by
+  cases l2Token_effect cfg u t u' h with
+  | neutral _ hm => exact absurd hm hch
+  | kcm _ _ _ _ _ _ _ _ hm => exact absurd hm hch
+  | queued _ _ _ _ _ _ _ _ _ _ hm => exact absurd hm hch
+  | delivered f pt r ht _ ho hp hk hd _ hm => exact ⟨hd, f, pt, r, ht, hk, ho, hp, hm⟩
+
+/-- the DCP machine leaves `unselected` only on a frame that decrypts, under the current nonce,
+    to a KCM; `selected` is never entered by received data (only by `select`) -/
+theorem leaves_unselected_only_by_kcm (cfg : L2Cfg) (u u' : UpSt) (t : Token)
+    (h : l2Token cfg u t = .ok u') :
+    (u.dcp = .unselected → u'.dcp ≠ .unselected →
+      ∃ f pt, t = .frame f ∧ u.rcd = .want_message ∧
+        openMessage cfg.noise u.rxNonce f = some (pt, u'.rxNonce) ∧ parseRecord cfg.validUtf8 pt = .ok .kcm) ∧
+    (u'.dcp = .selected → u.dcp = .selected) := by
+  cases l2Token_effect cfg u t u' h with
+  | neutral hd => exact ⟨fun h1 h2 => absurd (hd ▸ h1) h2, fun h1 => hd ▸ h1⟩
+  | kcm f pt ht hr ho hp hd hd' =>
+    exact ⟨fun _ _ => ⟨f, pt, ht, hr, ho, hp⟩, fun h1 => (by rw [hd'] at h1; cases h1)⟩
+  | queued _ _ _ _ _ _ _ _ hd hd' =>
+    exact ⟨fun h1 => (by rw [hd] at h1; cases h1), fun h1 => (by rw [hd'] at h1; cases h1)⟩
+  | delivered _ _ _ _ _ _ _ _ hd hd' =>
+    exact ⟨fun h1 => (by rw [hd] at h1; cases h1), fun _ => hd⟩
+
+/-- non-vacuity: under the toy AEAD the empty frame is not keyed, and there are receivers for
+    which nothing opens under nonce 0 (a peer/receiver key mismatch) -/
+example : ¬ KeyedFrame toyNoise 0 [] := by
+  rintro ⟨ps, hne, h⟩
+  cases ps with
+  | nil => exact hne rfl
+  | cons p ps => simp [encChunks, toyNoise, toyTag] at h
+example : ∀ c, ({ enc := fun _ m => m, dec := fun _ _ => none } : Noise).dec 0 c = none := fun _ => rfl
+
+/-- whatever bytes arrive in whatever chunking, nothing reaches the manager before `select` -/
+theorem nothing_to_manager_before_select (cfg : L2Cfg) (relay ld : Bool) (cs : List Bytes) :
+    (l2Feed cfg (l2Init relay ld) cs).1.up.toManager = [] ∧
+    (l2Feed cfg (l2Init relay ld) cs).1.up.dcp ≠ .selected := by
+  have := feed_inv cfg.framer (l2Token cfg) (fun u => u.toManager = [] ∧ u.dcp ≠ .selected)
+    (by
+      intro u t u' ⟨hm, hd⟩ h
+      cases l2Token_effect cfg u t u' h with
+      | neutral hd' hm' => exact ⟨hm' ▸ hm, hd' ▸ hd⟩
+      | kcm _ _ _ _ _ _ _ hd' hm' => exact ⟨hm' ▸ hm, by rw [hd']; simp⟩
+      | queued _ _ _ _ _ _ _ _ _ hd' hm' => exact ⟨hm' ▸ hm, by rw [hd']; simp⟩
+      | delivered _ _ _ _ _ _ _ _ hd' => exact absurd hd' hd)
+    (by
+      intro u t e u' ⟨hm, hd⟩ h
+      obtain ⟨hd', hm', _⟩ := l2Token_error_effect cfg u t e u' h
+      exact ⟨hm' ▸ hm, hd' ▸ hd⟩)
+    cs (l2Init relay ld).fr (l2Init relay ld).up ⟨rfl, by simp [l2Init, upInit, DCP.init]⟩
+  unfold l2Feed
+  exact this
+
+/-- a peer without the key — nothing it can send opens under the first receive nonce — gets
+    nothing through, whatever it sends and however it is chunked: the connection never becomes a
+    candidate, nothing is queued, nothing reaches the manager (and `select` is impossible) -/
+theorem unkeyed_connection_delivers_nothing (cfg : L2Cfg) (relay ld : Bool)
+    (hnokey : ∀ c, cfg.noise.dec 0 c = none) (cs : List Bytes) :
+    let s := (l2Feed cfg (l2Init relay ld) cs).1
+    s.up.dcp = .unselected ∧ s.up.candidate = false ∧ s.up.queued = [] ∧ s.up.toManager = [] ∧
+      l2Select s = .error .noTransition := by
+  have := feed_inv cfg.framer (l2Token cfg)
+    (fun u => u.dcp = .unselected ∧ u.candidate = false ∧ u.queued = [] ∧ u.toManager = [] ∧ u.rxNonce = 0)
+    (by
+      intro u t u' ⟨hd, hc, hq, hm, hn⟩ h
+      cases l2Token_effect cfg u t u' h with
+      | neutral hd' hm' hq' hc' hn' => exact ⟨hd' ▸ hd, hc' ▸ hc, hq' ▸ hq, hm' ▸ hm, hn' ▸ hn⟩
+      | kcm f pt _ _ ho =>
+        rw [hn, openMessage_none_of_dec0 cfg.noise 0 hnokey f] at ho; cases ho
+      | queued _ _ _ _ _ _ _ _ hd' => rw [hd] at hd'; cases hd'
+      | delivered _ _ _ _ _ _ _ _ hd' => rw [hd] at hd'; cases hd')
+    (by
+      intro u t e u' ⟨hd, hc, hq, hm, hn⟩ h
+      obtain ⟨hd', hm', hq', hc', hn'⟩ := l2Token_error_effect cfg u t e u' h
+      refine ⟨hd' ▸ hd, hc' ▸ hc, hq' ▸ hq, hm' ▸ hm, ?_⟩
+      rcases hn' with hn' | ⟨f, pt, _, ho⟩
+      · exact hn' ▸ hn
+      · rw [hn, openMessage_none_of_dec0 cfg.noise 0 hnokey f] at ho; cases ho)
+    cs (l2Init relay ld).fr (l2Init relay ld).up ⟨rfl, rfl, rfl, rfl, rfl⟩
+  unfold l2Feed
+  obtain ⟨hd, hc, hq, hm, _⟩ := this
+  refine ⟨hd, hc, hq, hm, ?_⟩
+  simp only [l2Select, upSelect]
+  rw [hd]; rfl
+
+/-! ## end to end -/
+
+/-- For every list of well-formed records and EVERY chunking of the honest sender's byte stream
+    (relay reply if a relay is used, prologue, Noise handshake frame, KCM, then the records as
+    `send_record` writes them — any payload sizes, single- or multi-packet), the receiver
+    processes the stream without an exception, ends with an empty buffer, is a candidate, and
+    after `select` the manager has received exactly the records sent, in order. -/
+theorem end_to_end (cfg : L2Cfg) (hN : cfg.noise.Ideal) (relay ld : Bool) (hs : Bytes)
+    (hok : cfg.handshakeOK hs = true) (recs : List Rec)
+    (hwf : ∀ r ∈ recs, r.wf cfg.validUtf8 ∧ r ≠ .kcm)
+    (stream : Bytes) (hst : honestStream cfg relay hs recs = some stream)
+    (cs : List Bytes) (hcs : cs.flatten = stream) :
+    ∃ s s', l2Feed cfg (l2Init relay ld) cs = (s, none) ∧ s.fr.buf = [] ∧ s.up.candidate = true ∧
+      s.up.toManager = [] ∧
+      l2Select s = .ok s' ∧ s'.up.toManager = recs ∧ s'.up.queued = [] ∧ s'.up.dcp = .selected := by
+  obtain ⟨hne, uF, hrun, hd, hq, hm, hc⟩ := run_honest cfg hN relay ld hs hok recs hwf stream hst
+  have hcsne : cs ≠ [] := by
+    intro h0; subst h0; exact hne hcs.symm
+  rw [← hcs] at hrun
+  have hfeed := feed_of_run_ok cfg.framer (l2Token cfg) _ _ _ _ cs hcsne hrun
+  have hup : (l2Init relay ld).up = upInit ld := rfl
+  refine ⟨⟨⟨.want_frame, []⟩, uF⟩, ⟨⟨.want_frame, []⟩, { uF with dcp := .selected, toManager := uF.toManager ++ uF.queued, queued := [] }⟩, ?_, rfl, hc, hm, ?_, ?_, rfl, rfl⟩
+  · unfold l2Feed; rw [hup, hfeed]
+  · simp [l2Select, upSelect, hd, DCP.table, Except.map]
+  · simp [hm, hq]
+
+/-- The same when `select` happens at ANY point where it is legal — after any number of chunks
+    `cs1` (the KCM must have arrived, otherwise `select` raises) with the rest `cs2` of the
+    stream arriving afterwards: records that came before `select` are queued and flushed by it,
+    the others are delivered directly; the manager gets exactly the records sent, in order. -/
+theorem end_to_end_select_anywhere (cfg : L2Cfg) (hN : cfg.noise.Ideal) (relay ld : Bool) (hs : Bytes)
+    (hok : cfg.handshakeOK hs = true) (recs : List Rec)
+    (hwf : ∀ r ∈ recs, r.wf cfg.validUtf8 ∧ r ≠ .kcm)
+    (stream : Bytes) (hst : honestStream cfg relay hs recs = some stream)
+    (cs1 cs2 : List Bytes) (hcs : (cs1 ++ cs2).flatten = stream)
+    (s1 s1' : L2St) (h1 : l2Feed cfg (l2Init relay ld) cs1 = (s1, none)) (hsel : l2Select s1 = .ok s1') :
+    ∃ s2, l2Feed cfg s1' cs2 = (s2, none) ∧ s2.up.toManager = recs ∧ s2.up.queued = [] ∧
+      s2.up.dcp = .selected ∧ s2.fr.buf = [] := by
+  obtain ⟨s, s', hF, hbuf, _, _, hS, hrecs, _, _⟩ :=
+    end_to_end cfg hN relay ld hs hok recs hwf stream hst (cs1 ++ cs2) hcs
+  unfold l2Feed at hF h1 ⊢
+  rcases hfa : feed cfg.framer (l2Token cfg) (l2Init relay ld).fr (l2Init relay ld).up (cs1 ++ cs2) with ⟨frA, uA, eA⟩
+  rcases hf1 : feed cfg.framer (l2Token cfg) (l2Init relay ld).fr (l2Init relay ld).up cs1 with ⟨fr1, u1, e1⟩
+  rw [hfa] at hF; rw [hf1] at h1
+  simp only [Prod.mk.injEq] at hF h1
+  obtain ⟨rfl, rfl⟩ := hF
+  obtain ⟨rfl, rfl⟩ := h1
+  rw [feed_append cfg.framer (l2Token cfg) cs1 cs2 _ _ fr1 u1 hf1] at hfa
+  -- what `select` did
+  simp only [l2Select] at hsel hS
+  cases hu : upSelect u1 with
+  | error e => simp [hu, Except.map] at hsel
+  | ok u1' =>
+    simp [hu, Except.map] at hsel
+    obtain ⟨hd1, rfl⟩ := upSelect_ok hu
+    cases huA : upSelect uA with
+    | error e => simp [huA, Except.map] at hS
+    | ok uA' =>
+      simp [huA, Except.map] at hS
+      obtain ⟨_, rfl⟩ := upSelect_ok huA
+      subst hsel hS
+      simp only at hrecs ⊢
+      rw [feed_sel cfg cs2 fr1 u1 hd1, hfa]
+      exact ⟨_, rfl, hrecs, rfl, rfl, hbuf⟩
+
+/-- non-vacuity of the hypotheses of `end_to_end_select_anywhere`: such `s1`, `s1'` exist -/
+example (cfg : L2Cfg) (hN : cfg.noise.Ideal) (relay ld : Bool) (hs : Bytes)
+    (hok : cfg.handshakeOK hs = true) (recs : List Rec) (hwf : ∀ r ∈ recs, r.wf cfg.validUtf8 ∧ r ≠ .kcm)
+    (stream : Bytes) (hst : honestStream cfg relay hs recs = some stream) :
+    ∃ s1 s1', l2Feed cfg (l2Init relay ld) [stream] = (s1, none) ∧ l2Select s1 = .ok s1' := by
+  obtain ⟨s, s', h1, _, _, _, h2, _⟩ := end_to_end cfg hN relay ld hs hok recs hwf stream hst [stream] (by simp)
+  exact ⟨s, s', h1, h2⟩
+
+/-- truncation: whatever prefix of the honest stream arrives (the connection is cut anywhere,
+    in any chunking), no exception is raised and what has been taken in is a prefix of the
+    records sent — never anything else -/
+theorem truncation_delivers_prefix (cfg : L2Cfg) (hN : cfg.noise.Ideal) (relay ld : Bool) (hs : Bytes)
+    (hok : cfg.handshakeOK hs = true) (recs : List Rec)
+    (hwf : ∀ r ∈ recs, r.wf cfg.validUtf8 ∧ r ≠ .kcm)
+    (stream : Bytes) (hst : honestStream cfg relay hs recs = some stream)
+    (cs : List Bytes) (hcs : cs.flatten <+: stream) :
+    ∃ s, l2Feed cfg (l2Init relay ld) cs = (s, none) ∧ s.up.queued <+: recs ∧ s.up.toManager = [] := by
+  have hnm := (nothing_to_manager_before_select cfg relay ld cs).1
+  by_cases hne : cs = []
+  · subst hne
+    exact ⟨l2Init relay ld, rfl, List.nil_prefix, rfl⟩
+  · obtain ⟨tail, htail⟩ := hcs
+    obtain ⟨_, uF, hrun, _, hq, _, _⟩ := run_honest cfg hN relay ld hs hok recs hwf stream hst
+    rw [← htail, ← addBuf_addBuf, run_append] at hrun
+    rcases hr : run cfg.framer (l2Token cfg) (addBuf (l2Init relay ld).fr cs.flatten) (upInit ld) with ⟨fr1, u1, e⟩
+    rw [hr] at hrun
+    cases e with
+    | some e => simp [thenMore] at hrun
+    | none =>
+      simp only [thenMore] at hrun
+      have hfeed := feed_of_run_ok cfg.framer (l2Token cfg) _ _ _ _ cs hne hr
+      have hpre : u1.queued <+: uF.queued := by
+        have := pump_rel cfg.framer (l2Token cfg) (fun a b => a.queued <+: b.queued)
+          (fun _ => List.prefix_refl _) (fun _ _ _ => List.IsPrefix.trans)
+          (fun u t u2 h => l2Token_queued_prefix cfg u u2 t h)
+          (fun u t e u2 h => by rw [(l2Token_error_effect cfg u t e u2 h).2.2.1]; exact List.prefix_refl _) (mu (addBuf fr1 tail) + 1) (addBuf fr1 tail) u1
+        have hrun' : pump cfg.framer (l2Token cfg) (mu (addBuf fr1 tail) + 1) (addBuf fr1 tail) u1
+            = (⟨.want_frame, []⟩, uF, none) := hrun
+        rw [hrun'] at this
+        exact this
+      have hup : (l2Init relay ld).up = upInit ld := rfl
+      unfold l2Feed at hnm ⊢
+      rw [hup, hfeed] at hnm ⊢
+      exact ⟨_, rfl, hq ▸ hpre, hnm⟩
+
+/-- non-vacuity of `end_to_end`: a concrete honest stream under the toy Noise (relay, leader
+    side receiving, an `open` with a non-ASCII name, a `data`, a `close`, an `ack`) -/
+example :
+    let cfg : L2Cfg := { framer := { relayExpected := relayOkBytes, inboundPrologue := Consts.PROLOGUE_FOLLOWER },
+                         leader := true, noise := toyNoise, validUtf8 := fun _ => true,
+                         handshakeOK := fun f => f == [104, 115] }
+    (honestStream cfg true [104, 115]
+      [.opn 0 1 [195, 169], .data 1 1 [1, 2, 3], .close 2 1, .ack 7, .ping [1, 2, 3, 4]]).isSome = true := by
+  decide
 
 end WV.Props.C12
